@@ -102,6 +102,7 @@ impl<'a> UserModel<'a> {
     /// This simulates the user clicking on the cell outline handle and dragging it downwards (or upwards)
     pub fn auto_fill_rows(&mut self, source_area: &Area, to_row: i32) -> Result<(), String> {
         let mut diff_list = Vec::new();
+        let formula_marks = self.formula_marks();
         let sheet = source_area.sheet;
         let row1 = source_area.row;
         let column1 = source_area.column;
@@ -246,7 +247,7 @@ impl<'a> UserModel<'a> {
         Ok(())
         })();
         if let Err(e) = result {
-            self.rollback(&diff_list);
+            self.rollback(&diff_list, &formula_marks);
             self.evaluate();
             return Err(e);
         }
@@ -259,6 +260,7 @@ impl<'a> UserModel<'a> {
     /// This simulates the user clicking on the cell outline handle and dragging it to the right (or to the left)
     pub fn auto_fill_columns(&mut self, source_area: &Area, to_column: i32) -> Result<(), String> {
         let mut diff_list = Vec::new();
+        let formula_marks = self.formula_marks();
         let sheet = source_area.sheet;
         let row1 = source_area.row;
         let column1 = source_area.column;
@@ -405,7 +407,7 @@ impl<'a> UserModel<'a> {
         Ok(())
         })();
         if let Err(e) = result {
-            self.rollback(&diff_list);
+            self.rollback(&diff_list, &formula_marks);
             self.evaluate();
             return Err(e);
         }
